@@ -487,3 +487,9 @@ impl<S: Sc> T<S> {
 pub fn has_kink(t: &T<f64>) -> bool {
     t.v.iter().any(|x| *x == 0.0)
 }
+
+/// true when any relu input is within `eps` of the kink: rounding in the library's float type may legitimately put
+/// it on either side, so the sub-gradient choice is not determined
+pub fn near_kink(t: &T<f64>, eps: f64) -> bool {
+    t.v.iter().any(|x| x.abs() <= eps)
+}
